@@ -860,6 +860,12 @@ def _check_chain(chain, ordered, spec):
     for f in chain.walk_folder(''):
         if _read(chain, f) != expected[f.path.casefold()]:
             return f'listed {f.path!r} reads other bytes than chain[{f.path!r}]'
+    # sub-folders of the chain: names stay relative to the chain (not to the folder walked), also for prefixed members
+    for d in sorted({rel.split('/')[0] for rel in expected if '/' in rel}):
+        want = sorted(rel for rel in expected if rel.startswith(d + '/'))
+        got = sorted(f.path.casefold() for f in chain.walk_folder(d))
+        if got != want:
+            return f'chain.walk_folder({d!r}) lists {got}, expected {want}'
     return None
 
 
